@@ -652,68 +652,70 @@ func (server *SugarDB) evictKeysWithExpiredTTL(ctx context.Context) error {
 		return nil
 	}
 
-	server.keysWithExpiry.rwMutex.RLock()
-
 	database := ctx.Value("Database").(int)
-
-	// Sample size should be the configured sample size, or the size of the keys with expiry,
-	// whichever one is smaller.
-	sampleSize := int(server.config.EvictionSample)
-	if len(server.keysWithExpiry.keys[database]) < sampleSize {
-		sampleSize = len(server.keysWithExpiry.keys)
-	}
-	keys := make([]string, sampleSize)
-
-	deletedCount := 0
 	thresholdPercentage := 20
 
-	var idx int
-	var key string
-	for i := 0; i < len(keys); i++ {
-		for {
-			// Retry retrieval of a random key until we find a key that is not already in the list of sampled keys.
-			idx = rand.Intn(len(server.keysWithExpiry.keys))
-			key = server.keysWithExpiry.keys[database][idx]
-			if !slices.Contains(keys, key) {
-				keys[i] = key
-				break
-			}
+	for {
+		// Sample size should be the configured sample size, or the number of volatile keys in the database,
+		// whichever one is smaller.
+		server.keysWithExpiry.rwMutex.RLock()
+		volatileKeys := server.keysWithExpiry.keys[database]
+		sampleSize := int(server.config.EvictionSample)
+		if len(volatileKeys) < sampleSize {
+			sampleSize = len(volatileKeys)
 		}
-	}
-	server.keysWithExpiry.rwMutex.RUnlock()
+		// Sample distinct keys from the volatile keys of this database.
+		keys := make([]string, 0, sampleSize)
+		for _, idx := range rand.Perm(len(volatileKeys))[:sampleSize] {
+			keys = append(keys, volatileKeys[idx])
+		}
+		server.keysWithExpiry.rwMutex.RUnlock()
 
-	// Loop through the keys and delete them if they're expired
-	server.storeLock.Lock()
-	defer server.storeLock.Unlock()
-	for _, k := range keys {
-		// Delete the expired key
-		deletedCount += 1
-		if !server.isInCluster() {
-			if err := server.deleteKey(ctx, k); err != nil {
-				return fmt.Errorf("evictKeysWithExpiredTTL -> standalone delete: %+v", err)
+		// If sampleSize is 0, there's nothing to evict.
+		if sampleSize == 0 {
+			return nil
+		}
+
+		// Loop through the sampled keys and delete the ones that are expired.
+		deletedCount := 0
+		var expired []string
+		server.storeLock.Lock()
+		now := server.clock.Now()
+		for _, k := range keys {
+			entry, ok := server.store[database][k]
+			// Only keys whose expiry time has passed are evicted.
+			if !ok || entry.ExpireAt == (time.Time{}) || !entry.ExpireAt.Before(now) {
+				continue
 			}
-		} else if server.isInCluster() && server.raft.IsRaftLeader() {
+			if !server.isInCluster() {
+				if err := server.deleteKey(ctx, k); err != nil {
+					server.storeLock.Unlock()
+					return fmt.Errorf("evictKeysWithExpiredTTL -> standalone delete: %+v", err)
+				}
+				deletedCount += 1
+				continue
+			}
+			expired = append(expired, k)
+		}
+		server.storeLock.Unlock()
+
+		// In a cluster the deletion goes through the replication layer, which takes the store lock itself.
+		for _, k := range expired {
 			if err := server.raftApplyDeleteKey(ctx, k); err != nil {
 				return fmt.Errorf("evictKeysWithExpiredTTL -> cluster delete: %+v", err)
 			}
+			deletedCount += 1
 		}
-	}
 
-	// If sampleSize is 0, there's no need to calculate deleted percentage.
-	if sampleSize == 0 {
-		return nil
-	}
+		log.Printf("%d keys sampled, %d keys deleted\n", sampleSize, deletedCount)
 
-	log.Printf("%d keys sampled, %d keys deleted\n", sampleSize, deletedCount)
-
-	// If the deleted percentage is over 20% of the sample size, execute the function again immediately.
-	if (deletedCount/sampleSize)*100 >= thresholdPercentage {
+		// If the deleted percentage is under 20% of the sample size, stop. Otherwise sample again immediately.
+		if (deletedCount*100)/sampleSize < thresholdPercentage {
+			return nil
+		}
 		log.Printf("deletion ratio (%d percent) reached threshold (%d percent), sampling again\n",
-			(deletedCount/sampleSize)*100, thresholdPercentage)
-		return server.evictKeysWithExpiredTTL(ctx)
+			(deletedCount*100)/sampleSize, thresholdPercentage)
 	}
-
-	return nil
 }
 
 func (server *SugarDB) randomKey(ctx context.Context) string {
